@@ -364,6 +364,44 @@ def run_surviving(case, cmds, on_crash, max_crashes=40):
     return answers
 
 
+def param_range_escapes(prepared):
+    """[(struct, field, parameter, (arg lo, arg hi), (declared lo, declared hi))]: places where a
+    structure is instantiated with an integer argument whose inferred range is not contained in the
+    range of the parameter's declared type (`Axes(axis_count)` with `axis_count: UInt:8` for
+    `struct Axes(axes: UInt:4)` in testdata/parameters.emb).  The front end accepts it and nothing
+    checks the value at run time, while bounds (`$max_size_in_*`) and C++ carrier types inside the
+    callee are inferred from the declared range — open finding of C01/C04."""
+    out = []
+
+    def atomic(ty):
+        while "array_type" in ty:
+            ty = ty["array_type"]["base_type"]
+        return ty.get("atomic_type")
+    for si in prepared.structs.values():
+        for f in si.type_ir["structure"].get("field", []):
+            at = atomic(f.get("type", {}))
+            if not at or not at.get("runtime_parameter"):
+                continue
+            target = prepared.structs.get(".".join(at["reference"]["canonical_name"]["object_path"]))
+            if target is None:
+                continue
+            for arg, rp in zip(at["runtime_parameter"], target.type_ir.get("runtime_parameter", [])):
+                a, d = arg.get("type", {}).get("integer"), rp.get("type", {}).get("integer")
+                if not a or not d:
+                    continue
+                try:
+                    ar = (int(a["minimum_value"]), int(a["maximum_value"]))
+                    dr = (int(d["minimum_value"]), int(d["maximum_value"]))
+                except (KeyError, ValueError):
+                    continue
+                if ar[0] < dr[0] or ar[1] > dr[1]:
+                    out.append((si.name, f["name"]["name"]["text"], rp["name"]["name"]["text"], ar, dr))
+    return out
+
+
+KEY_ARG_RANGE_UB = "ubsan:arithmetic-overflow:argument-outside-parameter-range"
+
+
 def crash_key(rr, cmd="", case=None):
     """Narrow classification of a sanitizer report / CHECK abort (for known-finding routing)."""
     err = rr.err or ""
@@ -392,6 +430,9 @@ def crash_key(rr, cmd="", case=None):
                                         "READ of size 1" in err):
             return "asan:%s:NullByteOrderer-truncated-one-byte-field" % what
         return "%s:%s" % (kind, what)
+    if "runtime error:" in err and "emboss_arithmetic.h" in err and "overflow" in err and case is not None \
+            and case.prepared is not None and param_range_escapes(case.prepared):
+        return KEY_ARG_RANGE_UB
     if "runtime error:" in err:
         import re
         m = re.search(r"([\w./]+):(\d+):\d+: runtime error: ([^\n]{0,60})", err)
